@@ -298,7 +298,7 @@ Fixpoint mk_input (name party doc : string) (t : ity) : M wrap :=
 
 (* ------------------------------------------------------------ environment *)
 
-Record fnrec := { fn_id : Z; fn_ret : ity; fn_nparams : nat }.
+Record fnrec := { fn_id : Z; fn_ret : ity; fn_params : list string }.
 Inductive binding := BWrap (w : wrap) | BFun (f : fnrec).
 Definition env := list (string * binding).
 
@@ -369,6 +369,21 @@ Definition elt_class (d : td) : res sty :=    (* contained_type if isclass else 
   | DInst (WScalar t _ _) => Ok t
   | _ => Err "TypeError"
   end.
+
+(* Signature.bind_partial( *pos, **kw ).args for positional-or-keyword parameters *)
+Fixpoint take_bound (params : list string) (kw : list (string * wrap)) : list wrap :=
+  match params with
+  | [] => []
+  | p :: r => match assoc p kw with Some w => w :: take_bound r kw | None => [] end
+  end.
+Definition bind_partial (params : list string) (pos : list wrap) (kw : list (string * wrap)) : res (list wrap) :=
+  if Nat.ltb (List.length params) (List.length pos) then Err "TypeError"
+  else
+    let taken := firstn (List.length pos) params in
+    let rest := skipn (List.length pos) params in
+    if existsb (fun k => existsb (String.eqb (fst k)) taken) kw then Err "TypeError"           (* multiple values *)
+    else if existsb (fun k => negb (existsb (String.eqb (fst k)) params)) kw then Err "TypeError"  (* unexpected keyword *)
+    else Ok (pos ++ take_bound rest kw)%list.
 
 Definition eval_rhs (ρ : env) (r : rhs) : M wrap :=
   match r with
@@ -530,7 +545,10 @@ Definition eval_rhs (ρ : env) (r : rhs) : M wrap :=
             mdo oky <- (if okx then mdo ty <- lift (inner_mir ey); ret (is_primitive_integer ty) else ret false);
             if negb (okx && oky) then fail "InvalidTypeError" else
             mdo id <- alloc;
-            mdo t <- lift (elt_class ex);
+            mdo tl <- lift (elt_class ex);
+            mdo tr <- lift (elt_class ey);
+            (* the most secret of the two element modes, the receiver's base type *)
+            let t := (mode_max (fst tl) (fst tr), snd tl) in
             mdo l <- need_id x; mdo r <- need_id y;
             emit_scalar t id (ABinary "InnerProduct" l r)
       | _, _ => fail "AttributeError"
@@ -538,9 +556,14 @@ Definition eval_rhs (ρ : env) (r : rhs) : M wrap :=
   | RCall f args kwargs =>
       mdo fr <- get_fun ρ f;
       mdo ws <- get_wraps ρ args;
-      mdo _ <- get_wraps ρ (map snd kwargs);          (* evaluated, then dropped by __call__ *)
+      mdo ks <- get_wraps ρ (map snd kwargs);
+      (* if kwargs: args = inspect.signature(function).bind_partial( *args, **kwargs ).args *)
+      mdo all <- (match kwargs with
+                  | [] => ret ws
+                  | _ => lift (bind_partial (fn_params fr) ws (combine (map fst kwargs) ks))
+                  end);
       mdo id <- alloc;
-      mdo ids <- need_ids ws;
+      mdo ids <- need_ids all;
       match fn_ret fr with
       | IScalar t =>
           mdo _ <- put id (TyName (mir_name t)) (ACall ids (fn_id fr));
@@ -588,7 +611,7 @@ Fixpoint exec (fuel : nat) (ρ : env) (ss : list stmt) {struct fuel} : M env :=
               else
                 mdo cid <- need_id child;
                 mdo _ <- put fid (TyName (mir_name t)) (AFunction f (map fst args) cid);
-                exec n ((f, BFun {| fn_id := fid; fn_ret := rt; fn_nparams := List.length params |}) :: ρ) rest
+                exec n ((f, BFun {| fn_id := fid; fn_ret := rt; fn_params := map fst params |}) :: ρ) rest
           end
       end
   end.
